@@ -61,7 +61,7 @@ def tier_plan(tier):
                 dict(name='mc2-live', workers=3, cfg=dict(spec='FairSpec', threads=2, redef=0, coll=1, nest=1, fail=1,
                                                          fns='Fns2', codes=2, properties=('Returns',))),
             ],
-            stress_procs=8, batch_events=30000, replay=dict(num=72, configs=[dict(threads=2, req=2), dict(threads=3, req=2)]),
+            stress_procs=8, batch_events=30000, replay=dict(num=120, configs=[dict(threads=2, req=2), dict(threads=3, req=2), dict(threads=4, req=1)]),
             trace_workers=10)
     return dict(
         models=[
